@@ -151,6 +151,9 @@ def run(args) -> int:
         more = [mlib.rand_history(rng, L) for _ in range(max(0, per - len(hs)))]
         for ops in fixed + hs[:per] + more:
             direct.append(dict(logic=L['name'], ops=ops))
+        # the same model with get_data() looked at during the assembly and just before finish()
+        for ops in fixed[:4] + hs[:6]:
+            direct.append(dict(logic=L['name'], ops=ops, peek=True))
     titles = probe_json('probe_export.py', ['titles'])
     pairs = []
     for L in logics:
@@ -178,7 +181,7 @@ def run(args) -> int:
             for case, r in zip(part, out):
                 chk.count('source', 'direct')
                 if r['err'] is None:
-                    models.append((dict(kind='direct', logic=case['logic'], ops=case['ops']), order, r))
+                    models.append((dict(kind='direct', logic=case['logic'], ops=case['ops'], **({'peek': True} if case.get('peek') else {})), order, r))
                 else:
                     chk.count('direct_raised', r['err'])
                     if r['err'] == 'Hang':
@@ -278,7 +281,7 @@ def replay(path: str) -> int:
         ent = probe_json('probe_export.py', ['branches'], order=order, stdin=json.dumps([[rep['logic'], rep['title']]]))[0]
         obs = ent['models'][rep.get('branch', 0)] if len(ent['models']) > rep.get('branch', 0) else None
     else:
-        r = probe_json('probe_export.py', ['direct'], order=order, stdin=json.dumps([dict(logic=rep['logic'], ops=rep['ops'])]))[0]
+        r = probe_json('probe_export.py', ['direct'], order=order, stdin=json.dumps([dict(logic=rep['logic'], ops=rep['ops'], peek=bool(rep.get('peek')))]))[0]
         obs = r if r['err'] is None else None
     if rep.get('clause') == 'hang':
         if rep.get('kind') == 'direct' and r['err'] == 'Hang':
@@ -297,7 +300,7 @@ def replay(path: str) -> int:
                 outs.append(e['models'][rep.get('branch', 0)]['data'] if e['models'] else None)
             else:
                 outs.append(probe_json('probe_export.py', ['direct'], order=o,
-                                       stdin=json.dumps([dict(logic=rep['logic'], ops=rep['ops'])]))[0].get('data'))
+                                       stdin=json.dumps([dict(logic=rep['logic'], ops=rep['ops'], peek=bool(rep.get('peek')))]))[0].get('data'))
         bad = outs[0] != outs[1]
     else:
         found = impl_clauses(L, obs)
